@@ -20,7 +20,8 @@ RULE = ("one run = GFA1 graph with count tags + scheduled delivery + one multipl
         "names); post-state checked; distinct = distinct (neighbourhood digest, factor, policy) tuples")
 PROBES = ["factor0", "factor1", "negative", "factor_ge2", "self_link", "parallel_links", "containment",
           "given_names", "auto_names_collision", "name_with_star", "distribute_L", "distribute_R",
-          "distribute_auto", "distribute_equal", "counts_divided", "id_tagged_edge", "gfa2_graph", "bad_copy_names"]
+          "distribute_auto", "distribute_equal", "counts_divided", "id_tagged_edge", "gfa2_graph", "bad_copy_names",
+          "auto_names_collision_nonsegment", "mentioned_identifier", "not_a_segment"]
 
 
 def gen(streams, tier, i):
@@ -61,10 +62,26 @@ def gen(streams, tier, i):
     if hr.random() < 0.3:
         # automatic names that collide with existing segments
         extra.append("S\t%s*2\t*" % seg if version == "gfa1" else "S\t%s*2\t5\t*" % seg)
+    elif hr.random() < 0.3:
+        # ... or with the identifier of a line that is not a segment (the namespace is shared)
+        nth = hr.choice([2, 2, 3])
+        if version == "gfa1":
+            extra.append("P\t%s*%d\t%s+\t*" % (seg, nth, seg))
+        else:
+            extra.append(hr.choice(["U\t%s*%d\t%s", "O\t%s*%d\t%s+"]) % (seg, nth, seg))
+    notseg = None
+    if not extra and hr.random() < 0.15:
+        if version == "gfa2" and hr.random() < 0.6:
+            # a set mentions, ahead of any definition, the identifier the first copy would get
+            extra.append("U\tuq7\t%s %s*%d" % (seg, seg, hr.choice([2, 2, 3])))
+        else:
+            # the identifier of a line that is not a segment is given instead of a segment
+            extra.append("P\tnsq\t%s+\t*" % seg if version == "gfa1" else hr.choice(["U\tnsq\t%s", "O\tnsq\t%s+"]) % seg)
+            notseg = "nsq"
     ops = [{"op": "new", "vlevel": cfg.choice([0, 1, 1, 2, 3]), "version": version}]
     for ln in order + extra:
         ops.append({"op": "add", "line": ln, "as": "str"})
-    ops.append({"op": "multiply", "seg": seg, "factor": factor, "distribute": distribute, "copy_names": copy_names,
+    ops.append({"op": "multiply", "seg": notseg or seg, "notseg": bool(notseg), "factor": factor, "distribute": distribute, "copy_names": copy_names,
                 "by": hr.choice(["name", "line"]), "bad_names": bad_names})
     return {"cfg": {"order": mode, "version": version}, "ops": ops}
 
@@ -123,14 +140,31 @@ def run(scn, st):
         g = w.gfa
         st.step()
         st.count("op.multiply")
-        if any(l.virtual for l in ob.reachable_lines(g)):
+        virt = [l for l in ob.reachable_lines(g) if l.virtual]
+        if any(not isinstance(l, gfapy.line.Unknown) for l in virt):
             return
+        mentioned = set(str(l.name) for l in virt)      # identifiers only mentioned so far (by a set)
         seg, k = op["seg"], op["factor"]
+        if op.get("notseg"):
+            # not a segment: refused whatever the factor (1 does nothing), nothing changes
+            pre_obs = ob.observe(g)
+            o = core.call(g.multiply, seg, k)
+            st.count("probe.not_a_segment")
+            st.count("oracle.not_a_segment")
+            if k != 1 and (o.ok or o.kind != "gfapy"):
+                raise core.Violation("non-segment-multiplied", "multiply(%r, %d) with the identifier of a %s line %s" %
+                                     (seg, k, g.line(seg).record_type if g.line(seg) is not None else "removed",
+                                      "returned" if o.ok else "raised " + o.excname), factor=min(k, 2))
+            if ob.observe(g) != pre_obs:
+                raise core.Violation("refused-multiply-changed", "multiply(%r, %d) of a line that is not a segment "
+                                     "changed the Gfa" % (seg, k), factor=min(k, 2))
+            continue
         if g.segment(seg) is None:
             return
         version = scn["cfg"].get("version", "gfa1")
-        pre_lines = ob.text_lines(g)
+        pre_lines = [x for x in ob.text_lines(g) if not x.startswith("?record_type?")]
         pre_obs = ob.observe(g)
+        pre_names = set(x for x in g.names if isinstance(x, str))
         S0, E0 = parse(pre_lines, version)
         # internal alignments are neither dovetails nor containments: they stay with the original only
         mine = [f for f in E0 if (f[1] == seg or f[3] == seg) and f[0] != "I"]
@@ -156,7 +190,7 @@ def run(scn, st):
         o = core.call(g.multiply, target, k, **kw)
         st.count("oracle.post_state")
         st.state(digest([sorted(edge_key(f) for f in mine), k, op["distribute"]]))
-        post_lines = ob.text_lines(g)
+        post_lines = [x for x in ob.text_lines(g) if not x.startswith("?record_type?")]
         if k < 0:
             st.count("probe.negative")
             if o.ok or o.excname != "ArgumentError":
@@ -203,8 +237,15 @@ def run(scn, st):
             raise core.Violation("copies-count", "multiply(%s,%d): new segments %r" % (seg, k, new), factor=min(k, 2))
         if op["copy_names"] is not None and new != sorted(op["copy_names"]):
             raise core.Violation("copy-names", "requested names %r, got %r" % (op["copy_names"], new))
-        if op["copy_names"] is None and any(n in S0 for n in new):
+        if op["copy_names"] is None and any(n in S0 or n in pre_names for n in new):
             raise core.Violation("copy-names-clash", "automatic names %r clash" % new)
+        if mentioned:
+            st.count("probe.mentioned_identifier")
+            if op["copy_names"] is None and any(n in mentioned for n in new):
+                raise core.Violation("copy-names-clash", "automatic names %r: %r is mentioned by a set of the document "
+                                     "(the copy became a member of it)" % (new, sorted(mentioned & set(new))), what="mentioned")
+        if op["copy_names"] is None and any(("%s*%d" % (seg, nth)) in pre_names - set(S0) for nth in range(2, k + 1)):
+            st.count("probe.auto_names_collision_nonsegment")
         if version == "gfa2":
             st.count("probe.gfa2_graph")
         if op["copy_names"] is None and ("%s*2" % seg.split("*")[0]) in S0:
